@@ -54,6 +54,9 @@ def gen_cases(tier, seed):
     add(mol="oh", basis="sto-3g", mf="uhf", cc=True, trial="ucisd", wt="uhf", stretch=1.85, chol_cut=1e-8)
     add(mol="h4", basis="sto-3g", mf="uhf", cc=True, trial="ucisd", wt="uhf", stretch=1.8, chol_cut=1e-8)
     add(mol="h4", basis="sto-3g", mf="rhf", cc=True, trial="cisd", wt="rhf", stretch=1.5, chol_cut=1e-8)
+    add(mol="lih", basis="sto-3g", mf="rhf", trial="rhf", wt="rhf", fci=True, field=0.02, chol_cut=1e-8)
+    add(mol="oh", basis="sto-3g", mf="rohf", trial="uhf", wt="uhf", fci=True, field=-0.015, chol_cut=1e-8)
+    add(mol="h4", basis="sto-3g", mf="uhf", trial="uhf", wt="uhf", field=0.03, chol_cut=1e-8)
     add(mol="hubbard", lattice="chain4", u=4.0, mf="rhf", nelec=[2, 2], trial="rhf", wt="uhf", chol_cut=1e-8, fci=True)
     add(mol="hubbard", lattice="grid2x2", u=2.0, mf="uhf", nelec=[2, 1], trial="uhf", wt="uhf", chol_cut=1e-8, fci=True)
     add(mol="h4", basis="sto-3g", mf="rhf", trial="rhf", wt="rhf", ladder=True)
@@ -75,6 +78,7 @@ def gen_cases(tier, seed):
             if trial == "cisd":
                 wt = "rhf"   # the hand-coded restricted CISD trial defines restricted-walker measurements only
             add(mol=mol, basis=basis, mf=mf, frozen=frozen, cc=cc, trial=trial, wt=wt, custom_basis=bool(rng.random() < 0.4 and not cc),
+                field=(float(rng.normal() * 0.02) if (rng.random() < 0.2 and not frozen and mf != "uhf" and not cc) else None),
                 stretch=(float(rng.uniform(1.3, 2.0)) if (mol in ("oh", "h4", "lih") and basis == "sto-3g" and rng.random() < 0.35) else None),
                 # (density fitting only for H-only molecules: auxiliary bases for Li / O are not in the offline pyscf data)
                 df=bool(rng.random() < 0.15 and not cc and not frozen and mol in ("h2", "h4", "h4ring")),
@@ -149,6 +153,13 @@ def _build_mf(case, rng):
     if case.get("df"):
         mf = mf.density_fit()
     mf.conv_tol = 1e-11
+    if case.get("field"):
+        # a mean-field object with its own core Hamiltonian (static electric field along z, as pyscf users add it): the written one-body
+        # integrals must be those of the object handed over
+        with mol.with_common_orig((0.0, 0.0, 0.0)):
+            dip = mol.intor_symmetric("int1e_r", comp=3)
+        h_field = mf.get_hcore() + float(case["field"]) * dip[2]
+        mf.get_hcore = lambda *a_, **k_: h_field
     if case.get("stretch") and case["mf"] == "uhf" and mol.spin == 0:
         dm = mf.get_init_guess()
         nao = dm.shape[-1]
